@@ -609,6 +609,59 @@ fn c09_units(tier: Tier) -> Vec<Unit> {
             },
         ));
     }
+    // ---- every 16-bit value as a word store into every plain word of the two register blocks (the byte sweep above
+    //      cannot see a register pair that treats particular *words* specially)
+    {
+        units.push(Unit::new(
+            "register-words",
+            64,
+            "every even address of both I/O register blocks whose two bytes are plain storage (port and timer registers excluded) x all 65536 word values, stored by MOV.W R0,@aa:24 and read back by MOV.W @aa:24,R1 on the real CPU in lock step with the reference (both bytes hold the big-endian halves, nothing else changes); plus MOV.L stores of 256 long values whose halves are the classic key bytes (a5, 5a, 96, 69, ...) at every long-aligned register address",
+            move |ctx, chunk| {
+                let words: Vec<u32> = (mach::IO1_LO..=mach::IO1_HI).chain(mach::IO2_LO..=mach::IO2_HI).filter(|a| a % 2 == 0 && (0..2).all(|k| plain_storage(a + k) && !sem::is_timer_reg(a + k) && mapped(a + k))).collect();
+                let st = ctx.isa.row("MOV.W Rs,@aa:24");
+                let ld = ctx.isa.row("MOV.W @aa:24,Rd");
+                let stl = ctx.isa.row("MOV.L ERs,@aa:24");
+                for (i, &a) in words.iter().enumerate() {
+                    if i % 64 != chunk as usize {
+                        continue;
+                    }
+                    let code_st = ctx.isa.encode(st, &crate::hv::isa::Fields { rs: 0, data: a, ..Default::default() });
+                    let code_ld = ctx.isa.encode(ld, &crate::hv::isa::Fields { rd: 1, data: a, ..Default::default() });
+                    let mut c = Case::new(crate::hv::dom::CODE_RAM, &code_st);
+                    let mut c2 = Case::new(crate::hv::dom::CODE_RAM + 0x40, &code_ld);
+                    c.er = crate::hv::dom::background_regs();
+                    c2.er = c.er;
+                    for v in 0..65536u32 {
+                        c.er[0] = (c.er[0] & 0xffff_0000) | v;
+                        c.ccr = v as u8;
+                        ctx.run(&c);
+                        // read path: the same word preset in memory
+                        c2.patches = crate::hv::sem::Small::new();
+                        c2.patch(a, (v >> 8) as u8);
+                        c2.patch(a + 1, v as u8);
+                        ctx.run(&c2);
+                        if ctx.stop {
+                            return;
+                        }
+                    }
+                    if a % 4 == 0 && (0..4).all(|k| plain_storage(a + k) && !sem::is_timer_reg(a + k) && mapped(a + k)) {
+                        let code = ctx.isa.encode(stl, &crate::hv::isa::Fields { rs: 0, data: a, ..Default::default() });
+                        let mut cl = Case::new(crate::hv::dom::CODE_RAM + 0x80, &code);
+                        cl.er = crate::hv::dom::background_regs();
+                        let keys = [0xa5u32, 0x5a, 0x96, 0x69, 0xc3, 0x3c, 0xff, 0x00, 0x80, 0x01, 0x55, 0xaa, 0x12, 0xe7, 0x7e, 0xb4];
+                        for &h in keys.iter() {
+                            for &l in keys.iter() {
+                                cl.er[0] = (h << 24) | (0x11 << 16) | (l << 8) | 0x22;
+                                ctx.run(&cl);
+                                cl.er[0] = (0x33 << 24) | (h << 16) | (0x44 << 8) | l;
+                                ctx.run(&cl);
+                            }
+                        }
+                    }
+                }
+            },
+        ));
+    }
     // ---- histories of B/W/L writes and reads through the CPU's absolute-address path
     let edges: [u32; 10] = [0x000000, 0x0000ff, 0x400000, 0x5fffff, 0xfee000, 0xfee0ff, 0xffbf20, 0xffff1f, 0xffff20, 0xffffe9];
     let maxlen = if tier == Tier::Thorough { 4 } else { 3 };
